@@ -811,4 +811,39 @@ theorem bsearch_equal_run_independent {κ α : Type} (cmp : κ → α → Int) (
 example : equalRun (fun (k : Int) (e : Int) => k - e) 3 [1, 3, 3, 3, 7] 1 = (1, 3) ∧
     equalRun (fun (k : Int) (e : Int) => k - e) 3 [1, 3, 3, 3, 7] 3 = (1, 3) := by decide
 
+/-- Soundness of the canonical qsort observable, for EVERY consistent comparator
+(classes, partial keys, everything-equal included) and every pivot stream: the
+canonical form of the model's output (`canonLex`: elements ordered by the
+comparator, elements comparing equal ordered by a total order `le` on whole
+elements) is the merge sort of the INPUT by that lexicographic order - a list
+function of the input alone.  So the pivots, `rand()`, the partition scheme and
+the arrangement of equal elements cannot influence the line the driver prints,
+and any implementation that leaves a permutation ordered by the comparator
+prints the same line. -/
+theorem qsort_canonical {α : Type} (cmp : α → α → Int) (hc : Consistent cmp) (le : α → α → Bool)
+    (htot : ∀ x y, (le x y || le y x) = true) (htr : ∀ x y z, le x y = true → le y z = true → le x z = true)
+    (has : ∀ x y, le x y = true → le y x = true → x = y) (rs : List Int) (a : List α) :
+    ∃ out rs', qsort cmp rs a = some (out, rs') ∧ canonLex cmp le out = a.mergeSort (lexLe cmp le) := by
+  obtain ⟨out, rs', h, hp, _⟩ := qsort_sorted cmp hc rs a
+  exact ⟨out, rs', h, canonLex_perm cmp hc le htot htr has out a hp⟩
+
+/-- … and EVERY permutation of the input has that same canonical form: the line
+the driver prints carries the multiset clause; the order clause is judged by the
+oracle on the raw output of the real code and by the run structure of the form
+the harness computes from it (`canon_runs`: runs of adjacent equal elements) -/
+theorem canonical_of_any_permutation {α : Type} (cmp : α → α → Int) (hc : Consistent cmp) (le : α → α → Bool)
+    (htot : ∀ x y, (le x y || le y x) = true) (htr : ∀ x y z, le x y = true → le y z = true → le x z = true)
+    (has : ∀ x y, le x y = true → le y x = true → x = y) (a out : List α) (hp : out.Perm a) :
+    canonLex cmp le out = a.mergeSort (lexLe cmp le) :=
+  canonLex_perm cmp hc le htot htr has out a hp
+
+-- a total order `le` exists (the hypotheses are satisfiable)
+example : (∀ x y : Int, (decide (x ≤ y) || decide (y ≤ x)) = true) ∧
+    (∀ x y z : Int, decide (x ≤ y) = true → decide (y ≤ z) = true → decide (x ≤ z) = true) ∧
+    (∀ x y : Int, decide (x ≤ y) = true → decide (y ≤ x) = true → x = y) := by
+  refine ⟨?_, ?_, ?_⟩
+  · intro x y; simp only [Bool.or_eq_true, decide_eq_true_eq]; omega
+  · intro x y z; simp only [decide_eq_true_eq]; omega
+  · intro x y; simp only [decide_eq_true_eq]; omega
+
 end Igris.C11
